@@ -9,25 +9,27 @@
  * entry value), fstate_idx is back to 0, the result is NULL or a fresh heap string.
  *
  * Tier B — the loops are closed by loop contracts (no unwinding: any number of lines of any length), but the
- * facts about file-stack and context-stack entries BELOW the top ("has a stream", "is not preprocessed",
- * "refers to a registered context") are needed at the top after a pop, i.e. at a computed index; without
- * quantifiers they are spelled out for the slots 1..2 / 0..3 and the input is bounded accordingly:
- *     include nesting <= 2 files, context nesting <= 3, no %preproc directive
- * (parse_line's contract in the callee role carries these bounds, contracts/conf.h; the fopen stub refuses a
- * third nested file).  spifconf_parse_line, spifconf_open_file and spifconf_find_file are used by contract. */
+ * facts about file-stack entries BELOW the top ("has a stream", "is not preprocessed") are needed at the top
+ * after a pop, i.e. at a computed index; without quantifiers they are spelled out for the slots 1..2 and the
+ * input is bounded accordingly:   include nesting <= 2 files, no %preproc directive
+ * (the fopen stub refuses a third nested file; the projected parse_line contract states the bounds).
+ * spifconf_parse_line is used through the FILE-STACK PROJECTION of its contract (contracts/conf.h,
+ * VERIF_PL_PROJECT_FSTACK: the context-stack component is left out, spifconf_parse never touches it);
+ * spifconf_open_file, spifconf_find_file and spifconf_register_fstate are used by contract. */
 
 /*@unit
 name: parse
-define: VERIF_CONF_ANNOT_PARSE, VERIF_OWN_STRCMP, VERIF_OWN_STRCHR, VERIF_CONF_REBIND, VERIF_LOOKUP_MODEL, VERIF_ROLE_CALLEE_parse_line, VERIF_MAX_NEST=2, VERIF_MAX_CTX=3
+define: VERIF_CONF_ANNOT_PARSE, VERIF_CONF_PUSH_MODELS, VERIF_OWN_STRCMP, VERIF_OWN_STRCHR, VERIF_CONF_REBIND, VERIF_LOOKUP_MODEL, VERIF_PL_PROJECT_FSTACK, VERIF_MAX_NEST=2
 src: conf.c
 enforce: spifconf_parse
-replace: spifconf_parse_line, spifconf_open_file, spifconf_find_file, spifconf_register_fstate
+replace: spifconf_parse_line, spifconf_open_file, spifconf_find_file
 backend: sat
 tier: B
-bound: include nesting <= 2 files, context nesting <= 3, no %preproc directive; number and length of lines unbounded (loop contracts)
+bound: include nesting <= 2 files, no %preproc directive; number and length of lines unbounded (loop contracts)
 loopcontracts: yes
 loops: 3
-timeout: 1200
+timeout: 1500
+objbits: 9
 */
 #include "vprelude.h"
 #include "env_conf.h"
@@ -56,20 +58,18 @@ spif_charptr_t spifconf_parse(spif_charptr_t conf_name, const spif_charptr_t dir
 __CPROVER_requires(VCSTR_FRESH(conf_name, vg_m1))
 __CPROVER_requires(dir == NULL || VCSTR_FRESH(dir, vg_m2))
 __CPROVER_requires(path == NULL || VCSTR_FRESH(path, vg_m3))
-/* initialised subsystem, empty file stack (documented: "pushed onto the empty stack"), context nesting within the bound */
-__CPROVER_requires(CTXTAB_INV && CTXSTK_INV && FSTK_INV && CTXNAME_AT(vg_k) && fstate_idx == 0 && fstate_cnt >= 3)
-__CPROVER_requires(ctx_state_idx <= VERIF_MAX_CTX && CTXID_AT(0) && CTXID_AT(1) && CTXID_AT(2) && CTXID_AT(3) && CTXID_AT(vg_k))
+/* initialised subsystem, empty file stack (documented: "pushed onto the empty stack") */
+/* (capacity as after init: the bounded nesting never makes the table grow) */
+__CPROVER_requires(FSTK_INV && fstate_idx == 0 && fstate_cnt >= 4)
 /* ghosts: every complete line so far was delivered; at a line boundary; files are finite; parse_line's buffer is CONFIG_BUFF bytes */
-__CPROVER_requires(vg_pl_calls == vg_deliverable && !vg_fg_mid && !vg_fg_hdr && !vg_exc && vg_fg_budget <= 0xffffffffUL && vg_n1 == CONFIG_BUFF)
-__CPROVER_assigns(spifconf_vars, fstate, fstate_idx, fstate_cnt, __CPROVER_object_whole(fstate))
-__CPROVER_assigns(ctx_state, ctx_state_idx, ctx_state_cnt, __CPROVER_object_whole(ctx_state), VG_ALL)
-__CPROVER_frees(fstate, ctx_state)
+__CPROVER_requires(vg_pl_calls == vg_deliverable && !vg_fg_mid && !vg_fg_hdr && vg_fg_budget <= 0xffffffffUL && vg_n1 == CONFIG_BUFF)
+__CPROVER_assigns(spifconf_vars, fstate_idx, __CPROVER_object_whole(fstate))
+__CPROVER_assigns(vg_sp, vg_ct, vg_ev, vg_fg, vg_tf, vg_st)
 /* the file stack is back where it started, every stream opened was closed */
 __CPROVER_ensures(FSTK_POST && fstate_idx == 0 && vg_open_streams == __CPROVER_old(vg_open_streams))
 /* every complete line was delivered (exactly once and in order: see the header comment); nothing is delivered when no file was opened */
 __CPROVER_ensures(vg_pl_calls == vg_deliverable && !vg_fg_mid)
 __CPROVER_ensures(__CPROVER_return_value != NULL || vg_pl_calls == __CPROVER_old(vg_pl_calls))
-__CPROVER_ensures(CTXSTK_POST && CTXID_AT(vg_k))
 ;
 
 void harness(void)
